@@ -219,6 +219,10 @@ impl<'a, W: 'static, R: 'static, T: 'static> RuntimeScope<'a, W, R, T> {
             .depth_limit
             .map_or(false, |limit| ret.height.0 >= limit)
         {
+            #[cfg(xray_verif)]
+            crate::verif::observe(crate::verif::Event::DepthTrip {
+                height: ret.height.0,
+            });
             return Err(RuntimeViolation::MaximumStackDepth);
         }
 
@@ -418,6 +422,8 @@ impl<'a, W: 'static, R: 'static, T: 'static> RuntimeScope<'a, W, R, T> {
                     rt.increment_call_limit()?;
                     rt.check_timeout()?;
                 }
+                #[cfg(xray_verif)]
+                crate::verif::observe(crate::verif::Event::CallEnter);
                 let mut args = args;
                 let mut recursion_depth = 0_usize;
                 loop {
@@ -427,8 +433,16 @@ impl<'a, W: 'static, R: 'static, T: 'static> RuntimeScope<'a, W, R, T> {
                     match v? {
                         TailedEvalResult::TailCall(new_args) => {
                             recursion_depth += 1;
+                            #[cfg(xray_verif)]
+                            crate::verif::observe(crate::verif::Event::TailIteration {
+                                iteration: recursion_depth,
+                            });
                             if let Some(recursion_limit) = rt.limits.recursion_limit {
                                 if recursion_depth > recursion_limit {
+                                    #[cfg(xray_verif)]
+                                    crate::verif::observe(crate::verif::Event::RecursionTrip {
+                                        iteration: recursion_depth,
+                                    });
                                     return Err(RuntimeViolation::MaximumRecursion);
                                 }
                             }
